@@ -7,7 +7,7 @@ from props import c07_util as U
 
 ID = "C07"
 RUN_MODULE = "Run.Run_C07"
-GEN_FILES = ["Gen_types.v"]
+GEN_FILES = ["Gen_types.v", "Gen_api.v"]
 RULE = ("random histories (<= 25 calls quick, <= 150 thorough) of add (default flags / uid=True), connect, disconnect, remove, "
         "set_output, add_blackbox, add_subcircuit, fill_blackbox over the names a..g plus '', '1x', dotted and pin names, all 14 "
         "types plus an unknown one; ~60 % of the calls built to be legal in a shadow state, ~25 % with arbitrary arguments, ~15 % "
